@@ -19,7 +19,10 @@
     SeqFold.value --C04_decoded_form-->  #attr ++ text ++ grouped children, children numbered
                                          consecutively in document order (C04_children_numbered)
     Go's map range + sort  --C04_sort_inverts_perm-->  the children in document order
-    seqEncTree (SeqFold.value t)  --C04_roundtrip_tree-->  [normalize t]
+    seqEncTree (SeqFold.value t)  --C04_roundtrip_tree(_cfg/_qualified)-->  [normalize t]
+    any order of any map          --C04_perm_invariant(_all), C04_roundtrip_any_order(_all)
+    seqEnc = rendering of seqEncTree (goEmpty)  --C04_bytes_are_rendering_goEmpty,
+                                                  C04_roundtrip_bytes (stream to bytes)
 -/
 import Mxj.Lemmas.Seq
 namespace Mxj.C04
@@ -88,5 +91,424 @@ theorem C04_newMapXmlSeq_tree (c : SeqCfg) (S : Strconv) (fin : StreamEnd) (pre 
     newMapXmlSeq c S (pre ++ flatten (.elem sp name attrs kids) ++ post) fin
       = .ok (.doc (SeqFold.doc c S (.elem sp name attrs kids))) :=
   newMapXmlSeq_tree c S fin pre post hpre sp name attrs kids
+
+/-! ### goal 2: decoder numbering — the normal form of a decoded element
+
+  For an element in the domain the decoder's map is, in this order: the `#attr` entry (if there
+  are attributes), the text entries `#text`, `#seq` (if there is text), then the children
+  grouped by key (`addAll`: repeated names promoted to lists by `addChild`).  `itemsOf` lists
+  the non-text children in document order with the sequence number each one carries. -/
+
+/-- the default configuration satisfies the side conditions of the general theorems -/
+theorem C04_cfgOk_dflt : CfgOk seqDflt := cfgOk_dflt
+
+/-- structure of the decoded map -/
+theorem C04_decoded_form (c : SeqCfg) (S : Strconv) (hc : CfgOk c) (sp name : Str)
+    (attrs : List Attr) (kids : List Node) (hd : seqDomain c (.elem sp name attrs kids) = true) :
+    SeqFold.value c S (.elem sp name attrs kids) = SeqFold.finish (decodedEntries c S attrs kids)
+    ∧ decodedEntries c S attrs kids
+      = (if attrs.isEmpty then [] else [(c.attrK, .map (attrEntries c 0 attrs))])
+        ++ textEntries c (leadText c kids) ++ addAll [] (itemsOf c S kids) :=
+  ⟨value_eq_finish c S sp name attrs kids, decodedEntries_form c S hc sp name attrs kids hd⟩
+
+/-- attributes carry their index: the i-th attribute is stored under its qualified name as
+    `{"#text": value, "#seq": i}` (shown for the first; `attrEntries` recurses with `i + 1`) -/
+theorem C04_attrs_numbered (c : SeqCfg) (i : Nat) (a : Attr) (as : List Attr) :
+    attrEntries c i (a :: as)
+      = (qualName c a.space a.name, .map [(c.textK, .str a.value), (c.seqK, seqNum i)])
+        :: attrEntries c (i + 1) as := rfl
+
+/-- … so the `#seq` numbers of the attribute entries are `0, 1, 2, …` in document order -/
+theorem C04_attrs_seqs (c : SeqCfg) (hc : CfgOk c) (attrs : List Attr) :
+    (attrEntries c 0 attrs).map (fun e => seqOf c e.2) = List.range' 0 attrs.length :=
+  attrEntries_seqs c hc attrs 0
+
+/-- the non-text children — child elements (after `seqChild`), comment, directive, processing
+    instruction — carry consecutive `#seq` numbers in document order, starting at 1 behind a
+    text and at 0 otherwise -/
+theorem C04_children_numbered (c : SeqCfg) (S : Strconv) (hc : CfgOk c) (kids : List Node) :
+    (itemsOf c S kids).map (fun e => seqOf c e.2)
+      = List.range' (if (leadText c kids).isSome then 1 else 0) (itemsOf c S kids).length :=
+  items_seqs c S hc kids _
+
+/-- … hence pairwise distinct and increasing -/
+theorem C04_children_increasing (c : SeqCfg) (S : Strconv) (hc : CfgOk c) (kids : List Node) :
+    (itemsOf c S kids).Pairwise (fun a b => seqOf c a.2 < seqOf c b.2) :=
+  items_pairwise c S hc kids _
+
+/-- what `unrollEntries` finds in the decoded map is a permutation of the children, and sorting
+    by `#seq` puts them back in document order -/
+theorem C04_children_unrolled (c : SeqCfg) (S : Strconv) (hc : CfgOk c) (sp name : Str)
+    (attrs : List Attr) (kids : List Node) (hd : seqDomain c (.elem sp name attrs kids) = true) :
+    (unrollEntries c (decodedEntries c S attrs kids)).Perm (itemsOf c S kids)
+    ∧ sortBySeq c (unrollEntries c (decodedEntries c S attrs kids)) = itemsOf c S kids :=
+  ⟨itemsOf_unrolled c S hc sp name attrs kids hd, sorted_children c S hc sp name attrs kids hd⟩
+
+/-- the decoded map has pairwise distinct keys, and its unrolled children pairwise distinct
+    sequence numbers -/
+theorem C04_decoded_distinct (c : SeqCfg) (S : Strconv) (hc : CfgOk c) (sp name : Str)
+    (attrs : List Attr) (kids : List Node) (hd : seqDomain c (.elem sp name attrs kids) = true) :
+    (keys (decodedEntries c S attrs kids)).Nodup
+    ∧ ((unrollEntries c (decodedEntries c S attrs kids)).map (fun e => seqOf c e.2)).Nodup :=
+  ⟨decoded_keys_nodup c S hc sp name attrs kids hd, decoded_seqs_nodup c S hc sp name attrs kids hd⟩
+
+/-- the same for the map of a child element (the decoded map with the parent's `#seq` put in):
+    the hypotheses of `C04_perm_invariant` hold at every element of a decoded document -/
+theorem C04_decoded_distinct_child (c : SeqCfg) (S : Strconv) (hc : CfgOk c) (sp name : Str)
+    (attrs : List Attr) (kids : List Node) (hd : seqDomain c (.elem sp name attrs kids) = true)
+    (n : Nat) :
+    (keys (insert c.seqK (seqNum n) (decodedEntries c S attrs kids))).Nodup
+    ∧ ((unrollEntries c (insert c.seqK (seqNum n) (decodedEntries c S attrs kids))).map
+        (fun e => seqOf c e.2)).Nodup := by
+  refine ⟨nodup_keys_insert _ _ _ (decoded_keys_nodup c S hc sp name attrs kids hd), ?_⟩
+  rw [unroll_insert_seq]
+  exact decoded_seqs_nodup c S hc sp name attrs kids hd
+
+/-! ### goal 4: the round trip at tree level -/
+
+/-- general configuration (`CfgOk`: no cast, no decoder-side escaping, reserved keys distinct;
+    snake-case and `keepSpace` are allowed — `qualify c` / `normalizeC c` follow them): the
+    decoded value of an in-domain element re-encodes to the normalised element with its names
+    spelled `prefix:local`, both as the document root and as a child carrying any `#seq` -/
+theorem C04_roundtrip_tree_cfg (c : SeqCfg) (S : Strconv) (hc : CfgOk c) (sp name : Str)
+    (attrs : List Attr) (kids : List Node) (hd : seqDomain c (.elem sp name attrs kids) = true)
+    (f : Nat) (hf : (Node.elem sp name attrs kids).height + 1 ≤ f) :
+    seqEncTree c f (qualName c sp name) (SeqFold.value c S (.elem sp name attrs kids))
+        = .ok [qualify c (normalizeC c (.elem sp name attrs kids))]
+    ∧ ∀ n, seqEncTree c f (qualName c sp name)
+          (seqChild c n (SeqFold.value c S (.elem sp name attrs kids)))
+        = .ok [qualify c (normalizeC c (.elem sp name attrs kids))] := by
+  have h := enc_tree c S hc (.elem sp name attrs kids)
+  simp only at h
+  exact h hd f hf
+
+/-- default configuration, names as the document text spells them.
+    (`Val` keys hold only the qualified name `prefix:local`, so the encoder's tree has its names
+    in that form: `qualify`.) -/
+theorem C04_roundtrip_tree_qualified (S : Strconv) (t : Node) (hd : SeqDomain t = true) :
+    ∃ key v, SeqFold.doc seqDflt S t = .map [(key, v)]
+      ∧ ∀ f, t.height + 1 ≤ f →
+          seqEncTree seqDflt f key v = .ok [qualify seqDflt (normalize t)] := by
+  cases t with
+  | elem sp name attrs kids =>
+    exact ⟨_, _, rfl, fun f hf =>
+      (C04_roundtrip_tree_cfg seqDflt S cfgOk_dflt sp name attrs kids hd f hf).1⟩
+  | text _ => simp [SeqDomain, seqDomain] at hd
+  | comment _ => simp [SeqDomain, seqDomain] at hd
+  | directive _ => simp [SeqDomain, seqDomain] at hd
+  | procinst _ _ => simp [SeqDomain, seqDomain] at hd
+
+/- The statement as first drafted,
+     `∃ key v, SeqFold.doc dflt S t = .map [(key, v)] ∧ seqEncTree dflt … key v = .ok [normalize t]`
+   with element names = keys, is false whenever a prefix is present: the key of `<p:a/>` is
+   `p:a`, so the encoder's tree is `.elem [] "p:a" [] []`, not `.elem "p" "a" [] []`
+   (see the `example` below).  The true versions: `C04_roundtrip_tree_qualified` (above), and
+   `C04_roundtrip_tree` (next), which splits the names at the colon again — for names the
+   tokenizer can produce (`plainNames`: no colon inside a prefix or a local name, local names
+   non-empty). -/
+example :
+    ∃ key v, SeqFold.doc seqDflt SeqSample.S0 (.elem "p".toList "a".toList [] []) = .map [(key, v)]
+      ∧ seqEncTree seqDflt 5 key v = .ok [.elem [] "p:a".toList [] []] := by
+  refine ⟨"p:a".toList, .str [], rfl, ?_⟩
+  simp [seqEncTree, textKid]
+
+/-- the round trip, names split again into prefix and local part -/
+theorem C04_roundtrip_tree (S : Strconv) (t : Node) (hd : SeqDomain t = true)
+    (hn : plainNames t = true) :
+    ∃ key v, SeqFold.doc seqDflt S t = .map [(key, v)]
+      ∧ ∀ f, t.height + 1 ≤ f →
+          ∃ n, seqEncTree seqDflt f key v = .ok [n] ∧ unqualify n = normalize t := by
+  obtain ⟨key, v, h1, h2⟩ := C04_roundtrip_tree_qualified S t hd
+  refine ⟨key, v, h1, fun f hf => ⟨_, h2 f hf, ?_⟩⟩
+  exact unqualify_qualify seqDflt rfl _ (plainNames_normalize seqDflt t hn)
+
+/-- stream to tree to stream: decoding the tokens of an in-domain document and re-encoding the
+    result gives the normalised document -/
+theorem C04_roundtrip_stream (S : Strconv) (fin : StreamEnd) (pre post : List Tok)
+    (hpre : ∀ t ∈ pre, isText t = true) (sp name : Str) (attrs : List Attr) (kids : List Node)
+    (hd : SeqDomain (.elem sp name attrs kids) = true) :
+    ∃ key v, newMapXmlSeq seqDflt S (pre ++ flatten (.elem sp name attrs kids) ++ post) fin
+        = .ok (.doc (.map [(key, v)]))
+      ∧ ∀ f, (Node.elem sp name attrs kids).height + 1 ≤ f →
+          seqEncTree seqDflt f key v
+            = .ok [qualify seqDflt (normalize (.elem sp name attrs kids))] :=
+  ⟨_, _, newMapXmlSeq_tree seqDflt S fin pre post hpre sp name attrs kids, fun f hf =>
+    (C04_roundtrip_tree_cfg seqDflt S cfgOk_dflt sp name attrs kids hd f hf).1⟩
+
+/-! ### Go's map order does not matter -/
+
+/-- one level: `seqEncTree` and `seqEnc` give the same result for any permutation of the
+    entries of the map, provided its keys are distinct (a Go map) and the sequence numbers of
+    its unrolled children are distinct -/
+theorem C04_perm_invariant (c : SeqCfg) (esc goEmpty : Bool) (f : Nat) (key : Str)
+    {val val' : Entries} (hp : val'.Perm val) (hk : (keys val).Nodup)
+    (hs : ((unrollEntries c val).map (fun e => seqOf c e.2)).Nodup) :
+    seqEncTree c f key (.map val') = seqEncTree c f key (.map val)
+    ∧ seqEnc c esc goEmpty f key (.map val') = seqEnc c esc goEmpty f key (.map val) :=
+  ⟨seqEncTree_perm c f key hp hk hs, seqEnc_perm c esc goEmpty f key hp hk hs⟩
+
+/-- … and the same for the `#attr` map (and any other list the encoder sorts) -/
+theorem C04_perm_invariant_sort (c : SeqCfg) {l p : List (Str × Val)} (hp : p.Perm l)
+    (hn : (l.map (fun e => seqOf c e.2)).Nodup) : sortBySeq c p = sortBySeq c l :=
+  sortBySeq_congr c hp hn
+
+/-- the round trip with the root's entries in ANY order (Go's range order) -/
+theorem C04_roundtrip_any_order (S : Strconv) (sp name : Str) (attrs : List Attr)
+    (kids : List Node) (hd : SeqDomain (.elem sp name attrs kids) = true)
+    (hne : (decodedEntries seqDflt S attrs kids).isEmpty = false)
+    (val' : Entries) (hp : val'.Perm (decodedEntries seqDflt S attrs kids))
+    (f : Nat) (hf : (Node.elem sp name attrs kids).height + 1 ≤ f) :
+    seqEncTree seqDflt f (qualName seqDflt sp name) (.map val')
+      = .ok [qualify seqDflt (normalize (.elem sp name attrs kids))] := by
+  have h := (C04_roundtrip_tree_cfg seqDflt S cfgOk_dflt sp name attrs kids hd f hf).1
+  rw [value_eq_finish] at h
+  simp only [SeqFold.finish, hne, Bool.false_eq_true, if_false] at h
+  rw [seqEncTree_perm seqDflt f _ hp
+    (decoded_keys_nodup seqDflt S cfgOk_dflt sp name attrs kids hd)
+    (decoded_seqs_nodup seqDflt S cfgOk_dflt sp name attrs kids hd)]
+  exact h
+
+/-- ALL levels.  `VPerm w v`: `w` is `v` with the entries of every map, at every level
+    (elements, list members, the `#attr` map, attribute entries, comment / PI entries), in some
+    other order.  `GoodAt c key v`: every map of `v` is what a Go map can be (distinct keys) and
+    the children / attributes of every element carry pairwise distinct `#seq`.  Then the
+    encoder's tree is the same -/
+theorem C04_perm_invariant_all (c : SeqCfg) (f : Nat) (key : Str) (w v : Val) (h : VPerm w v)
+    (hg : GoodAt c key v) : seqEncTree c f key w = seqEncTree c f key v :=
+  seqEncTree_vperm c f key w v h hg
+
+/-- the relation is reflexive and contains the one-level permutations -/
+theorem C04_vperm_refl (v : Val) : VPerm v v := VPerm.refl v
+theorem C04_vperm_of_perm {m b : Entries} (h : m.Perm b) : VPerm (.map m) (.map b) :=
+  VPerm.of_perm h
+
+/-- decoded values satisfy the hypothesis, under any key, as the root and as a child -/
+theorem C04_decoded_good (S : Strconv) (t : Node) (hd : SeqDomain t = true) (key : Str) :
+    GoodAt seqDflt key (SeqFold.value seqDflt S t)
+    ∧ ∀ n, GoodAt seqDflt key (seqChild seqDflt n (SeqFold.value seqDflt S t)) :=
+  good_value seqDflt S cfgOk_dflt t hd key
+
+/-- the round trip whatever order Go ranges over the maps in, at every level -/
+theorem C04_roundtrip_any_order_all (S : Strconv) (sp name : Str) (attrs : List Attr)
+    (kids : List Node) (hd : SeqDomain (.elem sp name attrs kids) = true) (w : Val)
+    (hw : VPerm w (SeqFold.value seqDflt S (.elem sp name attrs kids)))
+    (f : Nat) (hf : (Node.elem sp name attrs kids).height + 1 ≤ f) :
+    seqEncTree seqDflt f (qualName seqDflt sp name) w
+      = .ok [qualify seqDflt (normalize (.elem sp name attrs kids))] := by
+  rw [seqEncTree_vperm seqDflt f _ w _ hw (good_value seqDflt S cfgOk_dflt _ hd _).1]
+  exact (C04_roundtrip_tree_cfg seqDflt S cfgOk_dflt sp name attrs kids hd f hf).1
+
+/-! ### bytes = rendering of the tree -/
+
+/-- with `XmlGoEmptyElemSyntax` the bytes `seqEnc` writes are the canonical rendering of the
+    tree `seqEncTree` builds, for values whose leaves are strings (`seqPlain`; the numbers
+    under `#seq` are never written) -/
+theorem C04_bytes_are_rendering_goEmpty (c : SeqCfg) (esc : Bool) (hts : c.textK ≠ c.seqK)
+    (f : Nat) (key : Str) (v : Val) (hv : seqPlain c v = true) :
+    seqEnc c esc true f key v = (seqEncTree c f key v).mapOk (renderSeqKids esc true) :=
+  seqEnc_link c esc hts f key v hv
+
+/- For `goEmpty = false` the bytes are NOT a function of the tree: an element without content
+   is written `<k/>` in the "simple" and "empty" branches of `seqEnc` but `<k></k>` in the
+   general branch — e.g. a root with attributes only (its map has no `#seq`) against the same
+   element as a child: same tree, different bytes.  So
+     `seqEnc c esc goEmpty f key v = .ok bytes ↔ bytes = render of seqEncTree`
+   holds as stated only with `goEmpty = true` (`C04_bytes_are_rendering_goEmpty`). -/
+example :
+    SeqFold.value seqDflt SeqSample.S0 (.elem [] "r".toList [⟨[], "a".toList, "1".toList⟩] [])
+      = .map [("#attr".toList, .map [("a".toList,
+          .map [("#text".toList, .str "1".toList), ("#seq".toList, .num "i:0".toList)])])] := by
+  rfl
+example :
+    seqEnc seqDflt false false 5 "r".toList
+        (.map [("#attr".toList, .map [("a".toList,
+          .map [("#text".toList, .str "1".toList), ("#seq".toList, .num "i:0".toList)])])])
+      = .ok "<r a=\"1\"></r>".toList
+    ∧ seqEnc seqDflt false false 5 "r".toList
+        (seqChild seqDflt 0 (.map [("#attr".toList, .map [("a".toList,
+          .map [("#text".toList, .str "1".toList), ("#seq".toList, .num "i:0".toList)])])]))
+      = .ok "<r a=\"1\"/>".toList := by
+  constructor <;>
+    simp [seqEnc, seqKids, seqAttrsText, seqAttrText, seqChild, insert, seqDflt, lookup,
+      unrollEntries, sortBySeq, insertBySeq, closeTag]
+example :
+    seqEncTree seqDflt 5 "r".toList
+        (.map [("#attr".toList, .map [("a".toList,
+          .map [("#text".toList, .str "1".toList), ("#seq".toList, .num "i:0".toList)])])])
+      = .ok [.elem [] "r".toList [⟨[], "a".toList, "1".toList⟩] []]
+    ∧ seqEncTree seqDflt 5 "r".toList
+        (seqChild seqDflt 0 (.map [("#attr".toList, .map [("a".toList,
+          .map [("#text".toList, .str "1".toList), ("#seq".toList, .num "i:0".toList)])])]))
+      = .ok [.elem [] "r".toList [⟨[], "a".toList, "1".toList⟩] []] := by
+  constructor <;>
+    simp [seqEncTree, seqKidsTree, seqAttrNodes, seqAttrNode, seqChild, insert, seqDflt, lookup,
+      unrollEntries, sortBySeq, insertBySeq]
+
+/-- decoded values are in that domain -/
+theorem C04_decoded_plain (S : Strconv) (t : Node) (hd : SeqDomain t = true) :
+    seqPlain seqDflt (SeqFold.value seqDflt S t) = true :=
+  plain_value seqDflt S cfgOk_dflt t hd
+
+/-- end to end at byte level (with `XmlGoEmptyElemSyntax`): decode the token stream, call
+    `msv.Xml()` — the result is the rendering of the normalised document; the fuel
+    `mapSeqXml` supplies is enough -/
+theorem C04_roundtrip_bytes (S : Strconv) (fin : StreamEnd) (esc : Bool) (pre post : List Tok)
+    (hpre : ∀ t ∈ pre, isText t = true) (sp name : Str) (attrs : List Attr) (kids : List Node)
+    (hd : SeqDomain (.elem sp name attrs kids) = true) :
+    ∃ m, newMapXmlSeq seqDflt S (pre ++ flatten (.elem sp name attrs kids) ++ post) fin
+        = .ok (.doc (.map m))
+      ∧ mapSeqXml seqDflt esc true m
+        = .ok (renderSeq esc true (qualify seqDflt (normalize (.elem sp name attrs kids)))) :=
+  ⟨_, newMapXmlSeq_tree seqDflt S fin pre post hpre sp name attrs kids,
+    mapSeqXml_roundtrip seqDflt S cfgOk_dflt esc sp name attrs kids hd⟩
+
+/-! ### goal 5: the property's words -/
+
+/-- the re-encoded element: same (qualified) name, the attributes in the same order with the
+    same values (equal lists, not permutations), the trimmed text first, then every child
+    element, comment, directive and processing instruction at its position -/
+theorem C04_reencoded_shape (S : Strconv) (sp name : Str) (attrs : List Attr) (kids : List Node)
+    (hd : SeqDomain (.elem sp name attrs kids) = true) (f : Nat)
+    (hf : (Node.elem sp name attrs kids).height + 1 ≤ f) :
+    seqEncTree seqDflt f (qualName seqDflt sp name)
+        (SeqFold.value seqDflt S (.elem sp name attrs kids))
+      = .ok [.elem [] (qualName seqDflt sp name) (attrs.map (qualAttr seqDflt))
+          (textNodes (leadText seqDflt kids)
+            ++ (dropText kids).map (fun k => qualify seqDflt (normalizeC seqDflt k)))] := by
+  rw [(C04_roundtrip_tree_cfg seqDflt S cfgOk_dflt sp name attrs kids hd f hf).1]
+  simp only [normalizeC, qualify,
+    normalized_children seqDflt kids (seqDomain_parts hd).tf]
+
+/-- attribute order: the i-th attribute of the result is the i-th attribute of the source -/
+theorem C04_attr_order (attrs : List Attr) (i : Nat) (a : Attr) (h : attrs[i]? = some a) :
+    (attrs.map (qualAttr seqDflt))[i]?
+      = some ⟨[], qualName seqDflt a.space a.name, a.value⟩ := by
+  simp [List.getElem?_map, h, qualAttr]
+
+/-- sibling order: the i-th non-text child of the result (behind the text, if any) is the
+    normalised i-th non-text child of the source -/
+theorem C04_sibling_order (kids : List Node) (i : Nat) (k : Node) (h : (dropText kids)[i]? = some k) :
+    (textNodes (leadText seqDflt kids)
+        ++ (dropText kids).map (fun k => qualify seqDflt (normalizeC seqDflt k)))[
+          (textNodes (leadText seqDflt kids)).length + i]?
+      = some (qualify seqDflt (normalizeC seqDflt k)) := by
+  rw [List.getElem?_append_right (Nat.le_add_right _ _)]
+  simp [List.getElem?_map, h]
+
+/-- comments, directives and processing instructions come back unchanged, in the same position -/
+theorem C04_notes_unchanged (s t i : Str) :
+    qualify seqDflt (normalizeC seqDflt (.comment s)) = .comment s
+    ∧ qualify seqDflt (normalizeC seqDflt (.directive s)) = .directive s
+    ∧ qualify seqDflt (normalizeC seqDflt (.procinst t i)) = .procinst t i :=
+  ⟨rfl, rfl, rfl⟩
+
+/-- a child element comes back as an element with its qualified name and its attributes in
+    order -/
+theorem C04_child_element (sp name : Str) (attrs : List Attr) (ks : List Node) :
+    qualify seqDflt (normalizeC seqDflt (.elem sp name attrs ks))
+      = .elem [] (qualName seqDflt sp name) (attrs.map (qualAttr seqDflt))
+          (qualifyKids seqDflt (normalizeKidsC seqDflt ks)) := rfl
+
+/-- qualified names keep the prefix -/
+theorem C04_qualName (sp name : Str) :
+    qualName seqDflt sp name = if sp.isEmpty then name else sp ++ [':'] ++ name := rfl
+
+/-! ### non-vacuity -/
+
+/-- `<r x="1" n:y="2"> hi <a>1</a><!--note--><p:b/>␤<a k="v"/></r>`: interleaved siblings
+    a, b, a; two attributes (one prefixed); a comment; leading text -/
+example : SeqDomain SeqSample.tree = true := by decide
+example : plainNames SeqSample.tree = true := by decide
+
+/-- its MapSeq: `a` promoted to a list whose members carry `#seq` 1 and 4; comment 2; `p:b` 3 -/
+example :
+    newMapXmlSeq seqDflt SeqSample.S0 (flatten SeqSample.tree) .eof
+      = .ok (.doc (.map [("r".toList, .map [
+          ("#attr".toList, .map [
+            ("x".toList, .map [("#text".toList, .str "1".toList), ("#seq".toList, .num "i:0".toList)]),
+            ("n:y".toList, .map [("#text".toList, .str "2".toList), ("#seq".toList, .num "i:1".toList)])]),
+          ("#text".toList, .str "hi".toList),
+          ("#seq".toList, .num "i:0".toList),
+          ("a".toList, .list [
+            .map [("#text".toList, .str "1".toList), ("#seq".toList, .num "i:1".toList)],
+            .map [("#attr".toList, .map [
+                    ("k".toList, .map [("#text".toList, .str "v".toList),
+                                       ("#seq".toList, .num "i:0".toList)])]),
+                  ("#seq".toList, .num "i:4".toList)]]),
+          ("#comment".toList, .map [("#text".toList, .str "note".toList),
+                                    ("#seq".toList, .num "i:2".toList)]),
+          ("p:b".toList, .map [("#text".toList, .str []), ("#seq".toList, .num "i:3".toList)])])])) := by
+  rfl
+
+/-- its re-encoding as a tree (by the theorem; `seqEncTree` does not unfold by `rfl`) -/
+example :
+    seqEncTree seqDflt 10 "r".toList (SeqFold.value seqDflt SeqSample.S0 SeqSample.tree)
+      = .ok [.elem [] "r".toList
+          [⟨[], "x".toList, "1".toList⟩, ⟨[], "n:y".toList, "2".toList⟩]
+          [.text "hi".toList,
+           .elem [] "a".toList [] [.text "1".toList],
+           .comment "note".toList,
+           .elem [] "p:b".toList [] [],
+           .elem [] "a".toList [⟨[], "k".toList, "v".toList⟩] []]] :=
+  (C04_roundtrip_tree_cfg seqDflt SeqSample.S0 cfgOk_dflt [] "r".toList _ _
+    (by decide : SeqDomain SeqSample.tree = true) 10 (by decide)).1
+
+/-- … and as bytes (`XmlGoEmptyElemSyntax`, escaping on) -/
+example :
+    mapSeqXml seqDflt true true [("r".toList, SeqFold.value seqDflt SeqSample.S0 SeqSample.tree)]
+      = .ok (renderSeq true true (qualify seqDflt (normalize SeqSample.tree))) :=
+  mapSeqXml_roundtrip seqDflt SeqSample.S0 cfgOk_dflt true [] "r".toList _ _
+    (by decide : SeqDomain SeqSample.tree = true)
+example :
+    renderSeq false true (qualify seqDflt (normalize SeqSample.tree))
+      = "<r x=\"1\" n:y=\"2\">hi<a>1</a><!--note--><p:b></p:b><a k=\"v\"></a></r>".toList := by
+  decide
+
+example : unqualify (qualify seqDflt (normalize SeqSample.tree)) = normalize SeqSample.tree := by rfl
+
+/-- `VPerm` in action: the root's entries swapped AND the entries of the child's map swapped -/
+example :
+    VPerm (.map [("b".toList, .map [("#seq".toList, .num "i:1".toList), ("#text".toList, .str [])]),
+                 ("a".toList, .str "x".toList)])
+          (.map [("a".toList, .str "x".toList),
+                 ("b".toList, .map [("#text".toList, .str []), ("#seq".toList, .num "i:1".toList)])]) := by
+  rw [VPerm]
+  refine ⟨[("b".toList, .map [("#text".toList, .str []), ("#seq".toList, .num "i:1".toList)]),
+           ("a".toList, .str "x".toList)], _, rfl, List.Perm.swap _ _ [], ?_⟩
+  rw [EPerm]
+  refine ⟨_, _, rfl, ?_, ?_⟩
+  · rw [VPerm]
+    exact ⟨[("#seq".toList, .num "i:1".toList), ("#text".toList, .str [])], _, rfl,
+      List.Perm.swap _ _ [], EPerm.refl _⟩
+  · exact EPerm.refl _
+
+/-- the domain restrictions are needed: text behind a child element is written first … -/
+example : SeqDomain (.elem [] "r".toList [] [.elem [] "a".toList [] [], .text "x".toList]) = false := by
+  decide
+example :
+    SeqFold.value seqDflt SeqSample.S0 (.elem [] "r".toList [] [.elem [] "a".toList [] [], .text "x".toList])
+      = .map [("a".toList, .map [("#text".toList, .str []), ("#seq".toList, .num "i:0".toList)]),
+              ("#text".toList, .str "x".toList), ("#seq".toList, .num "i:1".toList)] := by rfl
+example :
+    seqEncTree seqDflt 5 "r".toList
+        (.map [("a".toList, .map [("#text".toList, .str []), ("#seq".toList, .num "i:0".toList)]),
+               ("#text".toList, .str "x".toList), ("#seq".toList, .num "i:1".toList)])
+      = .ok [.elem [] "r".toList [] [.text "x".toList, .elem [] "a".toList [] []]] := by
+  simp [seqEncTree, seqKidsTree, seqDflt, lookup, unrollEntries, sortBySeq, insertBySeq, fmtV,
+    textKid]
+
+/-- … and of two comments in one element only the second survives -/
+example : SeqDomain (.elem [] "r".toList [] [.comment "1".toList, .comment "2".toList]) = false := by
+  decide
+example :
+    SeqFold.value seqDflt SeqSample.S0 (.elem [] "r".toList [] [.comment "1".toList, .comment "2".toList])
+      = .map [("#comment".toList,
+          .map [("#text".toList, .str "2".toList), ("#seq".toList, .num "i:1".toList)])] := by rfl
+example :
+    seqEncTree seqDflt 5 "r".toList
+        (.map [("#comment".toList,
+          .map [("#text".toList, .str "2".toList), ("#seq".toList, .num "i:1".toList)])])
+      = .ok [.elem [] "r".toList [] [.comment "2".toList]] := by
+  simp [seqEncTree, seqKidsTree, seqDflt, lookup, unrollEntries, sortBySeq, insertBySeq, strOf]
 
 end Mxj.C04
